@@ -457,6 +457,8 @@ class Thread(threading.Thread):
             return super().run()
         except Exception:
             # FIXME: use exception instead of last implicit stacktrace
-            log_error("Caught unexpected exception while running test: " + traceback.format_exc())
+            # NB: the session method is used instead of the (interruptible) log_error function so that the error is
+            # also logged when the exception is the AbortTest raised because the tests have been manually stopped
+            self._session.log_error("Caught unexpected exception while running test: " + traceback.format_exc())
         finally:
             self._session.end_step()
